@@ -30,8 +30,10 @@ pub fn build(full_name: &str, level: u8) -> Option<Scenario> {
                 n.pre_vote = name.contains("pv");
                 n.check_quorum = name.contains("cq");
             }
-            if name == "elect-prio" {
-                s.nodes[2].priority = 1;
+            if n.contains("-prio") {
+                // the stale node (2) gets the priority when both variants are combined
+                let k = if n.contains("-stale") { 1 } else { 2 };
+                s.nodes[k].priority = 1;
             }
             s.crashable = vec![1, 2, 3];
             s.max_index = 8;
@@ -581,6 +583,7 @@ pub fn build(full_name: &str, level: u8) -> Option<Scenario> {
                     nd.apply_lag = true;
                 }
             }
+            let req = n.contains("-req");
             s.fault_types = vec![raft::eraftpb::MessageType::MsgSnapshot as u8, raft::eraftpb::MessageType::MsgAppendResponse as u8];
             let (compacts, props, dups, drops, reorders, snapfail, reqsnaps, cuts, to, beats, mi) = match l {
                 0 => (0, 0, 0, 0, 0, 1, 0, 0, 0, 1, 6),
@@ -606,6 +609,15 @@ pub fn build(full_name: &str, level: u8) -> Option<Scenario> {
                 if n.contains("-lazy") || n.contains("-lag") {
                     c.timeouts = to.max(1);
                     c.lazy = 2;
+                }
+                if req {
+                    // the follower asks for a snapshot; stale and duplicated MsgSnapshot around it
+                    c.reqsnaps = 1;
+                    c.dups = 1 + (l as u8) / 2;
+                    c.props = 1;
+                    c.reorders = (l as u8).min(1);
+                    c.snapfail = 0;
+                    c.compacts = (l as u8).min(1);
                 }
             });
         }
@@ -637,6 +649,7 @@ pub fn build(full_name: &str, level: u8) -> Option<Scenario> {
             let (reads, props, to, beats, dups, drops, crashes, ccs, reorders) = match l {
                 0 => (1, 0, 0, 1, 0, 0, 0, 0, 0),
                 1 => (1, 0, 1, 1, 0, 0, 0, 0, 0),
+                2 if n.contains("-lagf") => (1, 1, 0, 1, 0, 0, 0, 0, 0),
                 2 => (2, 0, 1, 1, 0, 0, 0, 0, 0),
                 3 => (1, 1, 1, 1, 1, 0, 0, 0, 0),
                 4 => (2, 1, 1, 1, 1, 0, 0, 0, 0),
@@ -644,6 +657,11 @@ pub fn build(full_name: &str, level: u8) -> Option<Scenario> {
                 6 => (2, 1, 2, 2, 1, 1, 1, 0, 1),
                 _ => (3, 2, 2, 3, 2, 1, 1, 1, 1),
             };
+            let (drops, reorders) = if n.contains("-lagf") { (1, reorders) } else { (drops, reorders) };
+            if n.contains("-lagf") {
+                // the follower that issues the read misses an append
+                s.fault_types = vec![raft::eraftpb::MessageType::MsgAppend as u8];
+            }
             let ccs = if n.contains("-cc") { ccs.max(1) } else { 0 };
             if n.contains("-cc") && l <= 1 {
                 s.clients_at = vec![1];
@@ -692,6 +710,12 @@ pub fn build(full_name: &str, level: u8) -> Option<Scenario> {
             s.timeoutable = vec![];
             s.transfer_targets = vec![1, 2, 3, 4, 9];
             s.cc_menu = vec![CcSpec::V1(1, 3)];
+            if n.contains("-cc") {
+                // a pending transfer to a lagging voter meets a membership change of the target
+                s.clients_at = vec![1];
+                s.transfer_targets = vec![3];
+                s.cc_menu = vec![CcSpec::V1(1, 3), CcSpec::V1(2, 3)];
+            }
             let pipe = n.contains("-pipe");
             if pipe {
                 // two appends pipelined to the transfer target, acknowledged separately
@@ -711,6 +735,8 @@ pub fn build(full_name: &str, level: u8) -> Option<Scenario> {
                 }
             }
             let (xf, props, beats, drops, dups, ccs, mt) = match l {
+                0 if n.contains("-cc") => (1, 0, 0, 0, 0, 1, 3),
+                1 if n.contains("-cc") => (1, 1, 1, 1, 0, 1, 3),
                 0 if pipe => (1, 2, 0, 1, 0, 0, 3),
                 1 if pipe => (1, 2, 1, 1, 1, 0, 3),
                 0 if abort => (1, 1, 3, 0, 0, 0, 3),
